@@ -114,3 +114,38 @@ def conn_lifecycle(rng):
     tail = [["sleep", rng.choice([0.5, 3.0])], ["connected"], ["put", "T", "A", "1"], ["get", "T", "B"], ["raw", "@T:C=3"], ["snap"], ["sleep", 1.0]]
     threads[0].extend([["join"]] + tail)
     return spec
+
+
+def conn_keepalive(rng):
+    """C13 flavour: probes, user MODELNAME queries racing them, other commands, unsolicited lines, latencies on both sides of the spacing"""
+    lat = rng.choice([0.0, 0.03, 0.06, 0.099, 0.1, 0.101, 0.15, 0.25, 0.4, 1.2])
+    unsol = []
+    t = 0.0
+    for _ in range(rng.randint(0, 6)):
+        t += rng.choice([0.05, 0.3, 7.0, 29.9, 30.15, 30.25])
+        unsol.append([round(t, 3), rng.choice(["@MAIN:VOL=-%d.0" % rng.randint(1, 60), "@SYS:MODELNAME=RX-V", "@UNDEFINED", "@MAIN:MUTE=On"])])
+    dev = {"type": "scripted", "latency": lat, "unsolicited": unsol}
+    if rng.random() < 0.3:
+        dev["latency"] = {"kind": "uniform", "lo": 0.0, "hi": rng.choice([0.12, 0.3]), "seed": rng.randrange(10 ** 6)}
+    if rng.random() < 0.2:
+        dev["swallow_first"] = 1
+    ops = []
+    for k in range(rng.randint(1, 10)):
+        ops.append(["sleep", rng.choice([0, 0.05, 0.1, 0.2, 29.7, 29.95, 30.0, 30.05, 30.2, 31, 60.2])])
+        r = rng.random()
+        if r < 0.45:
+            ops.append(["get", "SYS", "MODELNAME"])
+        elif r < 0.8:
+            ops.append(["put", "MAIN", f"F{k}", str(rng.randint(0, 99))])
+        else:
+            ops.append(["get", "MAIN", f"G{k}"])
+    ops.append(["sleep", rng.choice([1.0, 31.0])])
+    return {"kind": "conn", "device": dev, "log_size": 0, "threads": [ops], "pre_register": [1]}
+
+
+def conn_log(rng):
+    """C20 flavour: sessions shorter and longer than N with snapshots taken at random points by a second caller"""
+    spec = conn_traffic(rng, max_threads=2, max_cmds=25, long_idle=rng.random() < 0.3, log_sizes=(0, 1, 2, 5, 100))
+    snaps = [["sleep", rng.choice([0.0, 0.05, 0.1, 0.33, 1.0])] if i % 2 == 0 else ["snap"] for i in range(2 * rng.randint(2, 12))]
+    spec["threads"].append(snaps)
+    return spec
